@@ -176,7 +176,9 @@ def live_patterns():
         del sys.modules[k]
     from netconan import ip_anonymization as I
     from netconan import sensitive_item_removal as S
-    fm = [r"^\$9\$[\S]+$", r"^\$6\$[\S]+$", r"^\$1\$[\S]+\$[\S]+$", r"^[0-9a-fA-F]+$", r"^[01][0-9]([0-9a-fA-F]{2})+$", r"^[0-9]+$"]
+    # the six format tests of `_check_sensitive_item_format`: pattern literals read from the source text, in source order
+    from . import py2lean
+    fm = py2lean.format_literals()
     return {"ipv4": I.IPv4_PATTERN, "ipv6": I.IPv6_PATTERN, "drop_zeros": I.IpAnonymizer._DROP_ZEROS_PATTERN,
             "secret": S.generate_default_sensitive_item_regexes(), "formats": [re.compile(x) for x in fm]}
 
